@@ -206,6 +206,9 @@ package bip39
 //@   loop 1 unfold acc(t, lg, n, iter+1)
 //@   loop 1 decreases wordCount - iter
 //@   split wordCount in {12,15,18,21,24} at loop 1 exit unfold acc(t, lg, wordCount, wordCount)
+//@   alt horner: loop 1 invariant value: val(entBig) == horner(t, lg, iter)
+//@   alt horner: loop 1 unfold horner(t, lg, iter+1)
+//@   alt horner: split wordCount in {12,15,18,21,24} at loop 1 exit unfold acc(t, lg, wordCount, wordCount); horner(t, lg, wordCount)
 
 //@ func IsMnemonicValid
 //@   let t = split(nfkd(m), " ")
